@@ -63,13 +63,13 @@ CLAIMED = {
         "DESIGN.md §6 C05",
     ),
     "C06": (
-        "runtime monitor: (a) Scaled Display/parse round trip and unit arithmetic at function level against transcriptions of print_scaled/round_decimals/xn_over_d/nx_plus_y; (b) generated assignment and \\advance/\\multiply/\\divide statements run in the real VM in \\nonstopmode, comparing the \\the text, all 24 tracked registers read from state and the recovered-error count and class with a token-level model of scan_int/scan_dimen/scan_glue and TeX §1236-1240",
+        "runtime monitor: (a) Scaled Display/parse round trip and unit arithmetic at function level against transcriptions of print_scaled/round_decimals/xn_over_d/nx_plus_y; (b) generated assignment and \\advance/\\multiply/\\divide statements run in the real VM in \\nonstopmode, comparing the \\the text, all 24 tracked registers read from state and the recovered-error count and class with a token-level model of scan_int/scan_dimen/scan_glue and TeX §1236-1240; libFuzzer stage (thorough tier) whose inputs are decided by the same oracle",
         "Held on the executions produced: quick every 257th scaled value + boundaries (8.7e6), thorough ALL 2^31-1 values with |s| <= 2^30-1 (exhaustive); all 30x30 boundary operand pairs for 3 operations x count/dimen/skip; 3e6 / 8e7 random statements (4 radices, sign strings, 11 units, fil/fill/filll, 0-20 fraction digits, coercions, internal quantities as units).",
         "Trusts our transcription of TeX §99-107, §440-461, §1236-1240, calibrated on 90 unit-test/TeXbook facts and 421 decimals printed by real TeX in the goldens. Where TeX itself would negate -2^31 only 'no crash' is demanded. `true` units and non-standard catcodes are outside the quantifier.",
         "DESIGN.md §6 C06",
     ),
     "C07": (
-        "runtime monitor: generated conditional trees with a unique marker per branch evaluated directly by the generator and compared with the VM's output, followed by a lone \\fi that must raise exactly one error; differential execution of two VMs identical except for the simple vs optimised \\expandafter (output, error, macro-expansion event sequence), additionally compared with a small reference expander (TeX §366-369) on the macro-only subset",
+        "runtime monitor: generated conditional trees with a unique marker per branch evaluated directly by the generator and compared with the VM's output, followed by a lone \\fi that must raise exactly one error; differential execution of two VMs identical except for the simple vs optimised \\expandafter (output, error, macro-expansion event sequence), additionally compared with a small reference expander (TeX §366-369) on the macro-only subset; libFuzzer stage (thorough tier) whose inputs are decided by the same oracle",
         "Held on the executions produced: exhaustive \\ifodd/\\ifnum/\\ifcase operand tables, 6e4 / 1.5e6 trees of depth 0-6 whose skipped branches hold unbalanced braces, nested conditionals, \\let-aliases and look-alikes; all 6144 \\expandafter chains k1..k4, 1.2e5 / 3e6 random streams.",
         "Trusts the generator's own evaluation of the tree and our reference expander (calibrated on 34 + 24 rows of the repository's tables); streams leaving the reference's domain are skipped and counted; \\ifx/\\if/\\ifcat/\\csname do not exist in texlang-stdlib.",
         "DESIGN.md §6 C07",
@@ -117,7 +117,7 @@ CLAIMED = {
         "DESIGN.md §6 C19",
     ),
     "C13": (
-        "runtime monitor: real Hyphenator::calculate_indices on generated pattern sets, exception lists and words, compared with a transcription of Liang's algorithm as TeX defines it (§919-931, §934-940, §960-965) in two formulations (substring hash look-up and linear scan)",
+        "runtime monitor: real Hyphenator::calculate_indices on generated pattern sets, exception lists and words, compared with a transcription of Liang's algorithm as TeX defines it (§919-931, §934-940, §960-965) in two formulations (substring hash look-up and linear scan); libFuzzer stage (thorough tier) whose inputs are decided by the same oracle",
         "Held on the executions produced: all 9344 single patterns of 1-3 letters over {a,b} with levels {0,1,2,7} and every anchor combination, with and without an exception, on all words of length <=7 in both cases; 5e3 / 2.4e5 random pattern sets (levels 0-9, anchored/nested, multi-byte letters) each on all words of length <=7 plus random words up to 40 letters; 1e4 / 4e5 sets of 17-40-letter patterns around the 16-zero encoding boundary; plain TeX's patterns on 2.6e5 / 6.4e6 words.",
         "Trusts our transcription of Liang's algorithm, calibrated on the repository's 20 hyphenation words, 3 explanation vectors and the TeXbook Appendix H example. Malformed patterns (a12b, 1.ab), upper-case exceptions and patterns loaded after exceptions are kept out of the generator (DESIGN guard G).",
         "DESIGN.md §6 C13",
